@@ -88,7 +88,27 @@ def sig_c03_invalid_vs_nomatch(oracle, inp, ver):
     return any(o.startswith("err:") for o in outs) or any(o.startswith("err:") for o in ver.get("model", []))
 
 
+def sig_c15_resurrect(oracle, inp, ver):
+    """some spec of the case emits a captain delete and a captain update for the same machine id
+    from one action (both are then processed within one ProcessMsg), and the model agrees with the
+    implementation on every observation"""
+    if oracle not in ("storeEqLive", "probe:storeEqLive", "probe:rebuildEquiv") or not ver.get("corr"):
+        return False
+    for spec in (inp.get("specs") or {}).values():
+        for node in (spec.get("nodes") or {}).values():
+            act = (node or {}).get("action") or {}
+            dels, upds = set(), set()
+            for op in act.get("ops", []):
+                if op and op[0] == "emit" and isinstance(op[1], dict) and op[1].get("to") == "captain":
+                    dels |= set(x for x in (op[1].get("delete") or []) if isinstance(x, str))
+                    upds |= set((op[1].get("update") or {}).keys())
+            if dels & upds:
+                return True
+    return False
+
+
 SIGNATURES = {
+    "c15-delete-then-recreate-within-one-round": sig_c15_resurrect,
     "c03-repeated-variable-structured-values": sig_c03_repeated_structured,
     "c03-invalid-at-one-key-nonmatching-at-another": sig_c03_invalid_vs_nomatch,
 }
